@@ -39,8 +39,24 @@ Variable pc : nat -> nat.      (* renaming of the VALUES alias numbers *)
 Hypothesis p_inj : forall a b, p a = p b -> a = b.
 Hypothesis pc_inj : forall a b, pc a = pc b -> a = b.
 
-(** the draws of a step under the renaming: slot 3 is the VALUES alias number *)
-Definition rd (d : nat -> nat) : nat -> nat := fun k => if Nat.eqb k 3 then pc (d k) else p (d k).
+(** the draws of a step under the renaming: slot 3 and the even slots from 6 on are VALUES alias numbers *)
+Definition is_ctr_slot (k : nat) : bool := Nat.eqb k 3 || (Nat.leb 6 k && Nat.even k).
+Definition rd (d : nat -> nat) : nat -> nat := fun k => if is_ctr_slot k then pc (d k) else p (d k).
+
+Lemma slot_uu j : is_ctr_slot (5 + 2 * j) = false.
+Proof.
+  unfold is_ctr_slot. replace (Nat.even (5 + 2 * j)) with false by (rewrite Nat.even_add_mul_2; reflexivity).
+  rewrite andb_false_r. reflexivity.
+Qed.
+Lemma slot_ct j : is_ctr_slot (6 + 2 * j) = true.
+Proof.
+  unfold is_ctr_slot. replace (Nat.even (6 + 2 * j)) with true by (rewrite Nat.even_add_mul_2; reflexivity).
+  reflexivity.
+Qed.
+Lemma rd_uu d j : rd d (5 + 2 * j) = p (d (5 + 2 * j)).
+Proof. unfold rd. rewrite slot_uu. reflexivity. Qed.
+Lemma rd_ct d j : rd d (6 + 2 * j) = pc (d (6 + 2 * j)).
+Proof. unfold rd. rewrite slot_ct. reflexivity. Qed.
 
 Lemma p_eqb a b : Nat.eqb (p a) (p b) = Nat.eqb a b.
 Proof.
@@ -311,19 +327,33 @@ Lemma with_uu_r body u : with_uu (r_tx body) (p u) = r_tx (with_uu body u).
 Proof. reflexivity. Qed.
 
 Definition r_acc (a : acc) : acc :=
-  mkAcc (map r_cte (a_out a)) (map r_tx (a_names a)) (r_map (a_map a)) (a_j a) (option_map r_tx (a_last a)).
+  mkAcc (map r_cte (a_out a)) (map r_tx (a_names a)) (r_map (a_map a)) (a_j a) (option_map r_tx (a_last a)) (a_nctr a).
+
+Lemma first_ctr_r t : first_ctr (r_tx t) = option_map pc (first_ctr t).
+Proof.
+  induction t as [|[]|n IH|l IHl r IHr]; simpl; auto.
+  rewrite IHl, IHr. destruct (first_ctr l); reflexivity.
+Qed.
+
+Lemma subst_ctr_r o n t : subst_ctr (pc o) (pc n) (r_tx t) = r_tx (subst_ctr o n t).
+Proof.
+  induction t as [|[]|m IH|l IHl r IHr]; simpl; auto.
+  - rewrite pc_eqb. destruct (Nat.eqb n0 o); reflexivity.
+  - rewrite IHl, IHr. reflexivity.
+Qed.
 
 Lemma add_cte_r d a c :
   add_cte (rd d) (r_acc a) (r_cte c) = r_acc (add_cte d a c).
 Proof.
-  unfold add_cte. simpl (a_map (r_acc a)). simpl (a_names (r_acc a)). simpl (a_j (r_acc a)). simpl (a_out (r_acc a)).
-  simpl (c_name (r_cte c)). simpl (c_body (r_cte c)). simpl (c_br (r_cte c)). simpl (c_sq (r_cte c)). simpl (c_cols (r_cte c)).
-  cbn [c_name c_body c_br c_sq c_cols].
-  rewrite subst_name_r, subst_r. rewrite mem_tx_map.
+  unfold add_cte. cbn [a_map a_names a_j a_out a_nctr r_acc c_name c_body c_br c_sq c_cols r_cte].
+  rewrite subst_name_r, subst_r. rewrite mem_tx_map. rewrite rd_uu, rd_ct.
   destruct (mem_tx (subst_name (a_map a) (c_name c)) (a_names a)).
-  - unfold r_acc. simpl. rewrite map_app. simpl. unfold r_cte at 2. simpl.
-    destruct (a_map a); reflexivity.
-  - unfold r_acc. simpl. rewrite map_app. reflexivity.
+  - rewrite first_ctr_r.
+    destruct (first_ctr (subst (a_map a) (c_body c))) as [o|]; cbn [option_map].
+    + rewrite subst_ctr_r. unfold r_acc. cbn [a_map a_names a_j a_out a_nctr a_last option_map].
+      rewrite map_app. reflexivity.
+    + unfold r_acc. cbn [a_map a_names a_j a_out a_nctr a_last option_map]. rewrite map_app. reflexivity.
+  - unfold r_acc. cbn [a_map a_names a_j a_out a_nctr a_last option_map]. rewrite map_app. reflexivity.
 Qed.
 
 Lemma add_ctes_r d ex new :
@@ -341,13 +371,13 @@ Proof.
   unfold minus. apply filter_map_comm. intros x. rewrite mem_nat_map. reflexivity.
 Qed.
 
-Lemma self_join_fix_r l r' latest c :
-  self_join_fix (r_frame l) (r_frame r') (r_tx latest) (r_col c) = r_col (self_join_fix l r' latest c).
+Lemma self_join_fix_r l r' oju latest c :
+  self_join_fix (r_frame l) (r_frame r') (p oju) (r_tx latest) (r_col c) = r_col (self_join_fix l r' oju latest c).
 Proof.
   unfold self_join_fix. cbn [f_br f_ku r_frame cju r_col]. rewrite p_eqb.
   destruct (Nat.eqb (f_br l) (f_br r')); auto.
   destruct (cju c) as [u|]; cbn [option_map]; auto.
-  rewrite minus_r, mem_nat_map. destruct (mem_nat u (minus (f_ku r') (f_ku l))); reflexivity.
+  rewrite minus_r, mem_nat_map, p_eqb. destruct (mem_nat u (minus (f_ku r') (f_ku l)) || Nat.eqb u oju); reflexivity.
 Qed.
 
 Lemma join_frame_r l out jn onp ok :
@@ -409,11 +439,12 @@ Proof.
     destruct (ensure_cols g r (ctx_of l) l [ca; cb]) as [cs1|]; cbn [option_map]; auto.
     change (@nil (col * col)) with (map r_pair []). rewrite join_frame_r. rewrite ctx_of_r.
     rewrite map_map.
-    rewrite (map_ext (fun c => self_join_fix (r_frame l) (r_frame (convert rt (f_sq rt))) (r_tx latest) (r_col c))
-                     (fun c => r_col (self_join_fix l (convert rt (f_sq rt)) latest c)))
+    change (f_ju (r_frame rt)) with (p (f_ju rt)).
+    rewrite (map_ext (fun c => self_join_fix (r_frame l) (r_frame (convert rt (f_sq rt))) (p (f_ju rt)) (r_tx latest) (r_col c))
+                     (fun c => r_col (self_join_fix l (convert rt (f_sq rt)) (f_ju rt) latest c)))
       by (intros; apply self_join_fix_r).
     rewrite <- (map_map _ r_col). rewrite ensure_cols_r.
-    destruct (ensure_cols g r _ l (map (self_join_fix l (convert rt (f_sq rt)) latest) cs1)) as [[|ca' [|cb' [|]]]|];
+    destruct (ensure_cols g r _ l (map (self_join_fix l (convert rt (f_sq rt)) (f_ju rt) latest) cs1)) as [[|ca' [|cb' [|]]]|];
       cbn [option_map map]; auto.
     change [(r_col ca', r_col cb')] with (map r_pair [(ca', cb')]). rewrite join_frame_r.
     rewrite !sel_names_r. apply join_finish_r.
@@ -422,6 +453,14 @@ Proof.
     change (@nil (col * col)) with (map r_pair []). rewrite join_frame_r. rewrite join_pairs_r.
     destruct (join_pairs _ latest ncs) as [ps|]; cbn [option_map]; auto.
     rewrite join_frame_r. rewrite !sel_names_r. apply join_finish_r.
+Qed.
+
+Lemma join_ctr_r d l rt : join_ctr (rd d) (r_frame l) (r_frame rt) = join_ctr d l rt.
+Proof.
+  unfold join_ctr. change (f_sq (r_frame rt)) with (p (f_sq rt)). rewrite convert_r.
+  change (f_ctes (r_frame l)) with (map r_cte (f_ctes l)).
+  change (f_ctes (r_frame (convert rt (f_sq rt)))) with (map r_cte (f_ctes (convert rt (f_sq rt)))).
+  rewrite add_ctes_r. reflexivity.
 Qed.
 
 (* ---------------------------------------------------------------- session, environment, steps *)
@@ -536,8 +575,8 @@ Proof.
              | OnExpr a b => match resolve_h (r_env e) a, resolve_h (r_env e) b with
                              | Some ca, Some cb => inl (Some (ca, cb)) | _, _ => inl None end
              | OnNames cs => inr cs end) with (r_on on1).
-    + cbn [rg r_st]. rewrite join_model_r.
-      destruct (join_model g (rg s) d fl fr on1); cbn [option_map fst snd r_bind]; auto.
+    + cbv zeta. cbn [rg r_st views scache eviews counter]. rewrite join_model_r, join_ctr_r.
+      destruct (join_model g (rg s) d fl fr on1); cbn [option_map fst snd r_bind]; reflexivity.
     + unfold on1. destruct on as [a b|cs]; auto. rewrite !resolve_h_r.
       destruct (resolve_h e a); destruct (resolve_h e b); reflexivity.
   - (* view *)
@@ -564,6 +603,7 @@ Proof.
     destruct (schema_drops_view g || negb (f_ok f)); destruct (f_ok f); cbn [option_map r_obs]; try rewrite map_app; reflexivity.
   - (* bad *)
     rewrite get_r. destruct k; destruct (get e src) as [f|]; cbn [option_map fst snd r_bind]; auto.
+    all: try (rewrite wrap_r; destruct (wrap g (op_from g) f) as [fl new]; cbn [fst snd]; rewrite join_ctr_r; reflexivity).
     all: unfold set_rg; cbn [rg r_st views scache eviews counter]; rewrite ?add_branch_r, ?add_seq_r, ?add_alias_r; reflexivity.
 Qed.
 
